@@ -5,6 +5,10 @@ HERE = os.path.dirname(os.path.dirname(os.path.abspath(__file__)))
 ALL = ['C%02d' % i for i in range(1, 21)]
 
 CHECKS = {
+ 'C02': dict(cat='model_checking', engine='mirsym',
+   text='A: declared size == bytes written for every message and covered shape (MIR of size()/write_into_vec on symbolic values). B: the real default write_unencrypted_{server,client} bodies and header helpers of all three expansions are executed with the body length a symbolic u32 (body summarised as "exactly s bytes"): z3 decides, for every body length the header form can express at once, that writing does not abort and the header equals the specification (2-byte / Wrath 3-byte form, opcode, endianness). C: every sync reader entry (opcode-enum readers and typed expect helpers, 3 expansions x 2 directions) is executed on an abstract stream with symbolic header bytes and a symbolic-length body buffer: consumed bytes == size-field width + size-field value, opcode and body size handed on are the header\'s. A, B and C are the induction step for aligned streams of any length.',
+   note='B/C stubs: size_without_header()/write_into_vec of the representative message (SMSG/CMSG_WARDEN_DATA), read_opcodes / read_body, opcode_to_name. Overridden writers of compressed messages, async variants (C06) and encrypted variants (C05) are outside. The u16 overflow of the total frame length for the two largest bodies is a recorded finding.',
+   technique='symbolic execution of rustc MIR into SMT (z3) with symbolic-length buffers (all body lengths / header bytes at once)', ref='DESIGN.md 4/C02'),
  'C01': dict(cat='model_checking', engine='mirsym',
    text='For every login and world message (all versions/expansions) and every covered control shape (branch choices, optional present/absent, array counts and string lengths up to the stated bounds, mask patterns) the real read_inner -> write_into_vec -> size functions are executed symbolically on the compiler\'s MIR over the canonical encoding produced by an independent reader of the wowm sources, with every field value a free bit-vector; z3 decides acceptance on every feasible path, byte-for-byte equality of the re-encoding and the declared size. Every message is re-verified on every run.',
    note='Trusts the MIR interpreter and its std models (vf/models.py), the independent wowm reader/encoder (vf/wowm.py, vf/encode.py) and the C15 contract for DateTime. Bounds: counts/lengths <= 2 (quick) / 3 (thorough), shapes per message capped (one-factor + seeded random coverage). Not covered: UpdateMask members (C13), compressed messages/arrays (zlib), AddonArray. Counterexamples are replayed through the public opcode-enum readers/writers of the native dev and release builds.',
